@@ -610,11 +610,17 @@ fn ctl_point(name: &'static str) {
     cv.notify_all();
 }
 
+static CONC_STORED: Mutex<Vec<(u64, Vec<u8>)>> = Mutex::new(Vec::new());
+
 /// `conc L<names> n:<seed> n:<switch_permille> ; S ; setup ops ; T ; ops of thread 0 ; T ; ops of thread 1 ...`
 pub fn cmd_conc(t: &mut Toks, root: &std::path::Path, line: &str) -> String {
     let names = t.list(&mut |t| t.b());
     let seed = t.n() as u64;
     let switch = t.n() as u64;
+    // switch >= 10000 (and != 9999 = free running): probe mode - always test whether a writer blocks, and when one did not,
+    // hold it back at each of its points while the others run
+    let aggressive = switch >= 10000;
+    let switch = if aggressive { switch % 10000 } else { switch };
     // split the op text per section
     let body = &line[line.find(" ; ").map(|i| i + 3).unwrap_or(line.len())..];
     let mut setup: Vec<String> = Vec::new();
@@ -692,6 +698,8 @@ pub fn cmd_conc(t: &mut Toks, root: &std::path::Path, line: &str) -> String {
         // which did not come back within the probe timeout: they are blocked inside LMDB
         let mut blocked: Vec<usize> = Vec::new();
         let mut probes = 0;
+        let mut victim: Option<usize> = None;
+        let mut two_writers_seen = false;
         loop {
             let mut g = m.lock().unwrap();
             // wait until every thread that is not known to be blocked is at a point or done
@@ -709,7 +717,7 @@ pub fn cmd_conc(t: &mut Toks, root: &std::path::Path, line: &str) -> String {
                 g = ng;
                 if to.timed_out() {
                     waited += 1;
-                    if waited > 100 {
+                    if waited > (if aggressive { 20 } else { 100 }) {
                         g.trace.push((usize::MAX, "WATCHDOG"));
                         g.free = true;
                         cv.notify_all();
@@ -733,6 +741,15 @@ pub fn cmd_conc(t: &mut Toks, root: &std::path::Path, line: &str) -> String {
             x ^= x << 25;
             x ^= x >> 27;
             let r = x.wrapping_mul(0x2545F4914F6CDD1D);
+            // two threads parked inside the write path at once: the write transaction does not serialize them
+            let writers: Vec<usize> = (0..nthreads).filter(|i| matches!(&g.states[*i], TState::AtPoint(n) if holds_write_lock(n))).collect();
+            if writers.len() >= 2 && !two_writers_seen {
+                two_writers_seen = true;
+                g.trace.push((writers[1], "UNBLOCKED-WHILE-LOCK-HELD"));
+                if aggressive {
+                    victim = Some(writers[((r >> 33) as usize) % writers.len()]);
+                }
+            }
             // a thread blocked inside LMDB may be acquiring the lock right now: until it has parked
             // again, the lock counts as held
             let lock_busy = lock_holder.is_some() || !blocked.is_empty();
@@ -744,7 +761,11 @@ pub fn cmd_conc(t: &mut Toks, root: &std::path::Path, line: &str) -> String {
             let enabled: Vec<usize> = parked.iter().copied().filter(|i| !would_block(*i, &g)).collect();
             let probeable: Vec<usize> = parked.iter().copied().filter(|i| would_block(*i, &g)).collect();
             // now and then release a thread that SHOULD block on the write lock, to see whether it does
-            let probe = !probeable.is_empty() && blocked.is_empty() && lock_holder.is_some() && probes < 1 && (r >> 40) % 100 < 30;
+            let probe = !probeable.is_empty()
+                && blocked.is_empty()
+                && lock_holder.is_some()
+                && probes < (if aggressive { 3 } else { 1 })
+                && (aggressive || (r >> 40) % 100 < 30);
             if probe {
                 probes += 1;
                 let t = probeable[((r >> 20) as usize) % probeable.len()];
@@ -767,6 +788,9 @@ pub fn cmd_conc(t: &mut Toks, root: &std::path::Path, line: &str) -> String {
                     blocked.push(t);
                 } else {
                     g.trace.push((t, "UNBLOCKED-WHILE-LOCK-HELD"));
+                    if aggressive && victim.is_none() {
+                        victim = Some(if (r >> 33) % 2 == 0 { t } else { lock_holder.unwrap_or(t) });
+                    }
                 }
                 continue;
             }
@@ -782,9 +806,18 @@ pub fn cmd_conc(t: &mut Toks, root: &std::path::Path, line: &str) -> String {
                 cv.notify_all();
                 break;
             }
-            let choice = match last {
-                Some(l) if enabled.contains(&l) && (r % 1000) >= switch => l,
-                _ => enabled[((r >> 20) as usize) % enabled.len()],
+            let others: Vec<usize> = enabled.iter().copied().filter(|i| Some(*i) != victim).collect();
+            let choice = if victim.is_some() && !others.is_empty() && (r >> 44) % 100 < 85 {
+                // hold the thread that did not block back; let the others run ahead
+                match last {
+                    Some(l) if others.contains(&l) && (r % 1000) >= switch => l,
+                    _ => others[((r >> 20) as usize) % others.len()],
+                }
+            } else {
+                match last {
+                    Some(l) if enabled.contains(&l) && (r % 1000) >= switch => l,
+                    _ => enabled[((r >> 20) as usize) % enabled.len()],
+                }
             };
             last = Some(choice);
             g.turn = Some(choice);
@@ -797,6 +830,21 @@ pub fn cmd_conc(t: &mut Toks, root: &std::path::Path, line: &str) -> String {
     let mut resp = responses.lock().unwrap().clone();
     resp.sort();
     let rs: Vec<String> = resp.iter().map(|(t, n, r)| format!("{t}.{n}={r}")).collect();
+    // every event stored during the concurrent phase, re-read by the offset its store returned
+    let stored: Vec<(u64, Vec<u8>)> = std::mem::take(&mut *CONC_STORED.lock().unwrap());
+    let mut changed = 0;
+    if let Some(st) = h.store.as_ref() {
+        for (off, bytes) in stored.iter() {
+            let same = std::panic::catch_unwind(std::panic::AssertUnwindSafe(|| match st.get_event_by_offset(*off) {
+                Ok(e) => e.as_bytes() == &bytes[..],
+                Err(_) => false,
+            }))
+            .unwrap_or(false);
+            if !same {
+                changed += 1;
+            }
+        }
+    }
     let mut fin: Vec<String> = Vec::new();
     for op in finalops.iter() {
         let l = format!("; {op}");
@@ -804,7 +852,7 @@ pub fn cmd_conc(t: &mut Toks, root: &std::path::Path, line: &str) -> String {
         let _ = tt.next();
         fin.push(h.op(&mut tt));
     }
-    format!("conc sched={} resp={} final={}", trace.join(","), rs.join(" ;; "), fin.join(" | "))
+    format!("conc sched={} refcheck={},{} resp={} final={}", trace.join(","), stored.len(), changed, rs.join(" ;; "), fin.join(" | "))
 }
 
 /// the operations threads may issue concurrently (a subset of Hist::op over a shared &Store)
@@ -818,7 +866,11 @@ fn conc_op(st: &Store, _names: &[&'static str], t: &mut Toks) -> String {
                 Err(s) => return format!("ctor-{s}"),
             };
             match st.store_event(&ev) {
-                Ok(off) => format!("ok {off}"),
+                Ok(off) => {
+                    // C15: the reference handed out for this offset must keep denoting these bytes
+                    CONC_STORED.lock().unwrap().push((off, ev.as_bytes().to_vec()));
+                    format!("ok {off}")
+                }
                 Err(e) => format!("err:{}", db_err(&e)),
             }
         }
